@@ -26,7 +26,8 @@ import sys
 import common
 from common import Ctx, Outcome
 
-RULE = ("every fault point of every scenario is enumerated (index 0,1,2,... over the effectful calls of one save until "
+RULE = ("histories of several saves on the same model object (edits of some files, dry runs, failed saves, then a real save); "
+        "every fault point of every scenario is enumerated (index 0,1,2,... over the effectful calls of one save until "
         "the call count of the fault-free run is exceeded) x fault kinds x {normal, dry_run} x side-effect-before-error flag; "
         "fault sequences = every pair (first fault, later fault reached after it) in thorough, seeded sample in quick; "
         "distinct = distinct (scenario, dry_run, schedule); non-trivial = at least one fault fired or files were replaced")
@@ -46,6 +47,7 @@ MANIFEST = dict(
           "the injected error is the one seen; retry succeeds after any fault sequence; dry-run is a no-op; commit installs "
           "complete contents only; under arbitrary fault sequences every file is old or complete-new and the transaction is "
           "always reset; the temp-name check of open() is exact, a successful save implies usable temp names, a save with "
+          "after any history of earlier saves (failed, dry, successful, edited in between) a fault-free save installs every file; "
           "clashing temp names (long names sharing a 250-byte prefix, a name that is another file's temp name) is refused "
           "before the clashing file is touched; _tmpname is byte-bounded (<= 255 bytes) and injective on names <= 250 bytes. Tied to /repo by running the real save with a fault at every effectful call (trace, error, "
           "directory hashes, transaction state compared with the model) and an independent before/after monitor."),
@@ -55,6 +57,8 @@ MANIFEST = dict(
     technique="Lean 4 proof (bracket invariant, induction over fragments and over the commit/cleanup loops, ∀ fault index) + exhaustive fault-point differential run against the real handler",
 )
 
+TXN_PRED = lambda v: v is None or isinstance(v, (set, dict, list))  # noqa: E731 - the handler's private transaction set
+TXN_HINTS = ("trans", "tx", "txn")
 DECL = b'<?xml version="1.0" encoding="UTF-8"?>\n'
 KINDS = ["ENOSPC", "EACCES", "EIO", "ValueError", "KeyboardInterrupt"]
 BODY_EVENTS = ("open", "serialize", "write", "close")
@@ -119,11 +123,18 @@ class FaultyFile:
         self._closed = False
 
     def write(self, data):
+        # Copy at the shim boundary: the caller may hand in a view of a buffer it still owns (`BytesIO.getbuffer()`).
+        # A view kept alive by THIS frame - which the injected exception's traceback keeps alive, in a reference cycle
+        # with the frame that stores the exception - ends up in the cyclic garbage collector together with the BytesIO it
+        # exports from, and CPython 3.12.1 dies with SIGSEGV collecting that (see `release_frames`).
+        if not isinstance(data, (bytes, str)):
+            data = bytes(data)
         hit = self._inj.point("write", self._path)
         if hit:
             exc, eff = hit
             if eff:
                 self._real.write(data[: len(data) // 2])
+            del data, hit
             raise exc
         return self._real.write(data)
 
@@ -144,6 +155,28 @@ class FaultyFile:
 
     def __getattr__(self, name):
         return getattr(self._real, name)
+
+
+def release_frames(*excs: BaseException | None) -> None:
+    """Drop the frames the observed exceptions hold (the monitor judges identity, type and the `__context__` chain,
+    never a traceback).  An exception stored in a local of a frame that is part of its own traceback is a reference
+    cycle; everything the unwound frames of the implementation and of the shims still reference (arguments, buffers with
+    exported views) would wait in it for the cyclic collector.  Called only after save() has returned to the harness."""
+    import traceback
+
+    seen: list[BaseException] = []
+    todo = [e for e in excs if e is not None]
+    while todo:
+        e = todo.pop()
+        if any(e is x for x in seen):
+            continue
+        seen.append(e)
+        todo += [x for x in (e.__context__, e.__cause__) if x is not None]
+    for e in seen:
+        tb = e.__traceback__
+        if tb is not None:
+            traceback.clear_frames(tb)   # frames still running (the harness's own) are skipped
+            e.__traceback__ = None
 
 
 def untmp(name: str, tmpmap: dict[str, str] | None = None) -> str:
@@ -241,7 +274,7 @@ class Scenario:
     handler: object
 
     def txn(self):
-        return self.handler._LocalFileHandler__transaction
+        return common.get_private(self.handler, "_LocalFileHandler__transaction", TXN_PRED, TXN_HINTS)
 
 
 class ModelScenario(Scenario):
@@ -251,12 +284,19 @@ class ModelScenario(Scenario):
         self.counter = 0
         self.skip_bump = skip_bump
 
-    def bump(self):
+    def bump(self, only=None):
+        """change what the next save writes: every file, or only the files named in `only` (the others are then written
+        with the content they already have on disk after a successful save)"""
         self.counter += 1
         for name, tree in self.loader.trees.items():
             if name.parts[0] != "\0" or name.name in self.skip_bump:
                 continue
+            if only is not None and name.name not in only:
+                continue
             tree.root.set("verifcase", str(self.counter))
+
+    def bumpable(self) -> list[str]:
+        return [name.name for name in self.loader.trees if name.parts[0] == "\0" and name.name not in self.skip_bump]
 
     def frags(self) -> list[tuple[str, bytes]]:
         """(relative path, payload without declaration) in the order save() will write them."""
@@ -288,7 +328,7 @@ class DirectScenario(Scenario):
         self.label, self.root, self.handler, self.ops = label, root, handler, ops
         self.counter = 0
 
-    def bump(self):
+    def bump(self, only=None):
         self.counter += 1
 
     def _tree(self, text: str):
@@ -450,8 +490,15 @@ def build_scenarios(ctx: Ctx) -> list[Scenario]:
 # ------------------------------------------------------------------ one case
 
 
-def run_case(sc: Scenario, schedule: dict[int, tuple[str, bool]], dry_run: bool) -> dict:
-    sc.bump()
+def run_case(sc: Scenario, schedule: dict[int, tuple[str, bool]], dry_run: bool, bump=True, retry: bool = True,
+             history_tag: str | None = None) -> dict:
+    """One save with the given fault schedule, then (retry=True) a fault-free retry on the same object.
+    bump: True = every file gets new content first, a list = only those files, None/False = the model is left as it is
+    (a step of a longer history on the same object)."""
+    if bump is True:
+        sc.bump()
+    elif bump:
+        sc.bump(only=bump)
     frags = sc.frags()
     before = snapshot(sc.root)
     dirs_before = dirs_of(sc.root)
@@ -477,26 +524,32 @@ def run_case(sc: Scenario, schedule: dict[int, tuple[str, bool]], dry_run: bool)
     finally:
         lg.removeHandler(h)
         lg.propagate = propagate
+    release_frames(seen, *[f[3] for f in inj.fired])
     after = snapshot(sc.root)
     dirs_after = dirs_of(sc.root)
     txn_after = sc.txn()
     # retry on the same object, no faults
     retry_exc: BaseException | None = None
     inj2 = Injector(sc.root, {}, [p for p, _ in frags])
-    with injecting(inj2):
-        try:
-            sc.save(False)
-        except BaseException as e:  # noqa: BLE001
-            retry_exc = e
+    if retry:
+        with injecting(inj2):
+            try:
+                sc.save(False)
+            except BaseException as e:  # noqa: BLE001
+                retry_exc = e
+    release_frames(retry_exc)
     final = snapshot(sc.root)
+    # what the in-memory model serialises to NOW (after the save and the retry), outside any injection
+    frags_post = sc.frags()
     dirs_final = dirs_of(sc.root)
     txn_final = sc.txn()
     if txn_final is not None:  # never let one case poison the next
-        sc.handler._LocalFileHandler__transaction = None
-    for rel in set(final) - set(before) - {p for p, _ in frags}:
-        with contextlib.suppress(OSError):
-            (sc.root / rel).unlink()
-    if getattr(sc, "natural", False) or getattr(sc, "may_refuse", False):  # a scenario that (may) keep failing by itself: put its directory back as it was
+        common.set_private(sc.handler, "_LocalFileHandler__transaction", None, TXN_PRED, TXN_HINTS)
+    if retry:
+        for rel in set(final) - set(before) - {p for p, _ in frags}:
+            with contextlib.suppress(OSError):
+                (sc.root / rel).unlink()
+    if retry and (getattr(sc, "natural", False) or getattr(sc, "may_refuse", False)):  # a scenario that (may) keep failing by itself: put its directory back as it was
         for d in sorted(dirs_final - dirs_before, reverse=True):
             shutil.rmtree(sc.root / d, ignore_errors=True)
         for rel in set(final) - set(before):
@@ -507,7 +560,8 @@ def run_case(sc: Scenario, schedule: dict[int, tuple[str, bool]], dry_run: bool)
                 (sc.root / rel).write_bytes(data)
     return dict(frags=frags, before=before, after=after, final=final, inj=inj, seen=seen, warnings=warnings,
                 dirs_before=dirs_before, dirs_after=dirs_after, dirs_final=dirs_final,
-                txn_after=txn_after, txn_final=txn_final, retry_exc=retry_exc, retry_trace=inj2.trace)
+                txn_after=txn_after, txn_final=txn_final, retry_exc=retry_exc, retry_trace=inj2.trace,
+                frags_post=frags_post, retried=retry, history_tag=history_tag)
 
 
 def chain(exc: BaseException | None) -> list[BaseException]:
@@ -563,7 +617,9 @@ def monitor(sc: Scenario, schedule, dry_run: bool, r: dict) -> tuple[str, str] |
     first_ev = fired[0][1] if fired else None
     temps = {tmpname(p) for p in new}
     where = f"{sc.label} dry_run={dry_run} schedule={ {k: v for k, v in sorted(schedule.items())} } fired={[(f[0], f[1], f[2]) for f in fired]}"
-    cls_point = first_ev or ("natural" if natural else "nofault")
+    cls_point = first_ev or r.get("history_tag") or ("natural" if natural else "nofault")
+    # the bytes the in-memory model stands for, serialised afresh AFTER the save (and the retry) returned
+    post = {p: DECL + pay for p, pay in r.get("frags_post", r["frags"])}
 
     def bad(kind, msg):
         return (f"{kind}|{cls_point}", f"{msg}; {where}")
@@ -594,6 +650,10 @@ def monitor(sc: Scenario, schedule, dry_run: bool, r: dict) -> tuple[str, str] |
         for p, want in new.items():
             if after.get(p) != want:
                 return bad("commit-incomplete", f"{p} does not hold its complete new content after a successful save")
+        if not r.get("retried", True):
+            for p, want in post.items():
+                if after.get(p) != want:
+                    return bad("commit-differs-from-model", f"{p} on disk is not what the model object serialises to after a successful save")
         other = [p for p in changed if p not in new]
         if other:
             return bad("commit-touches-others", f"files not written were changed: {other}")
@@ -674,6 +734,8 @@ def monitor(sc: Scenario, schedule, dry_run: bool, r: dict) -> tuple[str, str] |
             return bad("dir-left", f"directories created that hold none of the written files: {new_dirs}")
 
     # --- retry on the same object must succeed (unless the scenario fails by itself)
+    if not r.get("retried", True):
+        return None
     if is_refusal(r["retry_exc"]):
         # the file names themselves are refused: the retry must leave everything as the first attempt left it
         if r["txn_final"] is not None:
@@ -691,6 +753,9 @@ def monitor(sc: Scenario, schedule, dry_run: bool, r: dict) -> tuple[str, str] |
         for p, want in new.items():
             if final.get(p) != want:
                 return bad("retry-incomplete", f"{p} wrong after retry")
+        for p, want in post.items():
+            if final.get(p) != want:
+                return bad("retry-differs-from-model", f"{p} on disk is not what the model object serialises to after the retry")
         extra = sorted(p for p in final if p not in before and p not in new)
         if extra:
             return bad("temp-left", f"temporary files remain after retry: {extra}")
@@ -819,6 +884,81 @@ def schedules_for(ctx: Ctx, sc: Scenario, dry_run: bool, n_points: int, n_body: 
     return out
 
 
+def histories_for(ctx: Ctx, sc: "ModelScenario", n_points: dict[bool, int], n_body: dict[bool, int]) -> list[list[dict]]:
+    """Histories of several saves on the SAME model object: steps {edit, kind, schedule}; edit = True (every file),
+    a list of file names (only those), None (the model is left as it is); kind = save | dry | fail.  Every history
+    ends with a fault-free real save, after which every file must hold what the model serialises to."""
+    rng = ctx.rng
+    names = sc.bumpable()
+
+    def some():
+        return sorted(rng.sample(names, rng.randint(1, len(names))))
+
+    def fail(dry=False, lo=0, hi=None, edit=None):
+        hi = n_points[dry] if hi is None else hi
+        i = rng.randrange(lo, max(lo + 1, hi))
+        return dict(edit=edit, kind="fail", dry=dry, schedule=[[i, rng.choice(KINDS), rng.random() < 0.3]])
+
+    save = dict(edit=None, kind="save", dry=False, schedule=[])
+    dry = dict(edit=None, kind="dry", dry=True, schedule=[])
+    nb = n_body[False]
+    per = max(1, nb // max(1, len(sc.frags())))   # body events per file
+    hs = [
+        [dict(dry, edit=True), save],                                  # a dry run, then the real save
+        [dict(dry, edit=some()), dry, save],
+        [fail(edit=True, lo=per, hi=nb), save],                        # fault in the 2nd or a later file
+        [fail(edit=True, lo=per, hi=nb), fail(lo=0, hi=nb), save],     # two failed saves in a row
+        [fail(edit=True, lo=per, hi=nb), dry, save],
+        [fail(edit=True, dry=True, lo=per, hi=n_body[True]), save],    # a failing dry run
+        [dict(save, edit=True), save],                                 # nothing edited in between: unchanged writes
+        [dict(save, edit=True), fail(edit=some(), lo=per, hi=nb), save],
+        [fail(edit=some(), lo=per, hi=nb), dict(save, edit=some())],   # an edit between the failed save and the retry
+        [fail(edit=True, lo=nb, hi=n_points[False]), save],            # fault while committing / cleaning up
+    ]
+    for _ in range(ctx.pick(6, 60)):
+        h = []
+        for _ in range(rng.randint(1, 4)):
+            k = rng.choice(["save", "dry", "fail", "fail", "faildry"])
+            e = rng.choice([None, None, True, "some"])
+            e = some() if e == "some" else e
+            h.append(dict(save, edit=e) if k == "save" else dict(dry, edit=e) if k == "dry" else fail(dry=k == "faildry", edit=e))
+        h.append(dict(save, edit=rng.choice([None, None, "some"]) and some()))
+        hs.append(h)
+    return hs
+
+
+def run_history(ctx: Ctx, out: Outcome, sc: "ModelScenario", hist: list[dict], reqs, obss, metas) -> None:
+    start = snapshot(sc.root)
+    prev = "first"
+    done = []
+    for st in hist:
+        schedule = {int(i): (k, bool(e)) for i, k, e in st["schedule"]}
+        r = run_case(sc, schedule, st["dry"], bump=st["edit"], retry=False, history_tag="after-" + prev)
+        done.append(st)
+        fired = r["inj"].fired
+        out.case((sc.label, "history", repr(done)), None, True)
+        out.traces_validated += 1
+        out.hit(f"history:{st['kind']}-after-{prev}")
+        meta = {"scenario": sc.label, "history": list(done)}
+        verdict = monitor(sc, schedule, st["dry"], r)
+        if verdict:
+            sig, what = verdict
+            out.find(f"LocalFileHandler.save|{sig}", f"{what}; step {len(done)} of history {[(s_['kind'], s_['edit'], s_['schedule']) for s_ in done]}", meta)
+        req, obs = model_request(sc, schedule, st["dry"], r)
+        for k in ("retry_err", "retry_txn", "retry_files"):
+            obs.pop(k)
+        reqs.append(req)
+        obss.append(obs)
+        metas.append(meta)
+        prev = "failed" if r["seen"] is not None else "dry" if st["dry"] else "ok"
+        if sc.txn() is not None:
+            common.set_private(sc.handler, "_LocalFileHandler__transaction", None, TXN_PRED, TXN_HINTS)
+        # a temp file whose unlink was refused (reported by the handler, judged above): not the next step's business
+        for rel in set(r["after"]) - set(start) - {p for p, _ in r["frags"]}:
+            with contextlib.suppress(OSError):
+                (sc.root / rel).unlink()
+
+
 def run(ctx: Ctx) -> Outcome:
     sys.path.insert(0, str(common.REPO))
     out = Outcome(rule=RULE)
@@ -826,9 +966,13 @@ def run(ctx: Ctx) -> Outcome:
     reqs, obss, metas = [], [], []
     dist: dict[str, int] = {}
     for sc in scs:
+        npts: dict[bool, int] = {}
+        nbody: dict[bool, int] = {}
         for dry_run in (False, True):
             r0 = run_case(sc, {}, dry_run)
             n_points = len(r0["inj"].trace)
+            npts[dry_run] = n_points
+            nbody[dry_run] = sum(1 for ev, _ in r0["inj"].trace if ev in BODY_EVENTS)
             n_body = sum(1 for ev, _ in r0["inj"].trace if ev in BODY_EVENTS)
             for schedule in schedules_for(ctx, sc, dry_run, n_points, n_body):
                 r = run_case(sc, schedule, dry_run)
@@ -863,6 +1007,12 @@ def run(ctx: Ctx) -> Outcome:
                 obss.append(obs)
                 metas.append({"scenario": sc.label, "dry_run": dry_run,
                               "schedule": [[i, k, e] for i, (k, e) in sorted(schedule.items())]})
+        # several saves on the same model object: edits of some files only, dry runs, failed saves, then a real save
+        if isinstance(sc, ModelScenario) and not getattr(sc, "natural", False) and not sc.label.endswith("5_2"):
+            hs = histories_for(ctx, sc, npts, nbody)
+            for hist in hs:
+                run_history(ctx, out, sc, hist, reqs, obss, metas)
+            out.extra["histories"] = out.extra.get("histories", 0) + len(hs)
     out.extra["fault_distribution"] = dict(sorted(dist.items()))
     out.extra["scenarios"] = [s.label for s in scs]
     out.exhaustive = True  # every fault index of every scenario, single faults
@@ -870,6 +1020,8 @@ def run(ctx: Ctx) -> Outcome:
         answers = common.model(reqs, driver="Txn")
         for meta, obs, ans in zip(metas, obss, answers):
             mv = ans.get("ok", {"err!": ans.get("err")})
+            if "history" in meta and isinstance(mv, dict) and "err!" not in mv:   # a step of a history: no retry was run
+                mv = {k: v for k, v in mv.items() if not k.startswith("retry_")}
             if mv != obs:
                 diff = {k: {"impl": obs.get(k), "model": mv.get(k) if isinstance(mv, dict) else mv}
                         for k in obs if not isinstance(mv, dict) or mv.get(k) != obs.get(k)}
@@ -883,6 +1035,10 @@ def replay(ctx: Ctx, case: dict):
     sys.path.insert(0, str(common.REPO))
     scs = build_scenarios(ctx)
     for sc in scs:
+        if sc.label == case["scenario"] and "history" in case:
+            o = Outcome()
+            run_history(ctx, o, sc, case["history"], [], [], [])
+            return "; ".join(f"{f.signature}: {f.what[:300]}" for f in o.findings[:3]) or None
         if sc.label == case["scenario"]:
             schedule = {int(i): (k, bool(e)) for i, k, e in case["schedule"]}
             r = run_case(sc, schedule, case["dry_run"])
